@@ -22,7 +22,7 @@ TRANSPARENT = set(norm(p) for p in [
     "std::clone::Clone::clone", "std::path::Path::to_path_buf", "std::borrow::ToOwned::to_owned",
     "std::path::PathBuf::as_path", "std::convert::Into::into", "std::convert::From::from",
     "std::option::Option::<&T>::copied", "std::option::Option::<&T>::cloned",
-    "std::option::Option::<T>::as_ref", "std::option::Option::<T>::as_mut",
+    "std::option::Option::<T>::as_ref", "std::option::Option::<T>::as_mut", "std::num::NonZero::<T>::get",
     "std::option::Option::<T>::unwrap", "std::option::Option::<T>::expect",
     "std::result::Result::<T, E>::unwrap", "std::result::Result::<T, E>::expect",
     "std::option::Option::<T>::ok_or", "std::option::Option::<T>::ok_or_else",
